@@ -325,10 +325,9 @@ theorem adjConst_unique (lcs : List (LC.LinComb F)) (hnd : (lcs.map (·.label)).
 
 /-! ### end to end -/
 
-/-- **`open_combinations` → `check_combinations` completeness** for MarlinKZG10 over unbounded
-polynomials (a degree-bounded polynomial may only appear alone with coefficient one, where the
-combination *is* the polynomial and `marlin_batch_complete` applies directly). -/
-theorem lc_complete {ck : CK F} {vk : VK F} {g γ β h : F} {D n m : Nat}
+/-- the verifier's side of an honest combination opening: the combined commitments are computed, the
+per-label accumulation consumes exactly the prover's challenges, and every KZG defect is zero -/
+theorem lc_accept {ck : CK F} {vk : VK F} {g γ β h : F} {D n m : Nat}
     (hwf : WF ck vk g γ β h D n m) (l : List (Trip' F))
     (hH : ∀ t ∈ l, Honest g γ β D t ∧ t.1.bound = none) (hL : ∀ t ∈ l, RandLen m t)
     (hlab : ∀ t ∈ l, t.2.2.label = t.1.label)
@@ -339,8 +338,11 @@ theorem lc_complete {ck : CK F} {vk : VK F} {g γ β h : F} {D n m : Nat}
         = some (lcPolyValue l gr.2.1 lc.terms + lcConstant lc))
     (ξs : List F) (πs : List (KZG.Proof F)) (rest : List F)
     (ho : openCombinations ck (l.map (·.1)) (l.map (·.2.1)) (l.map (·.2.2)) lcs qs ξs = .ok (πs, rest))
-    (rs : List F) :
-    checkCombinations vk (l.map (·.2.2)) lcs qs evals πs ξs rs = .ok true := by
+    :
+    ∃ lcComms, combineAllComm (l.map (·.2.2)) lcs = .ok lcComms ∧
+      ∃ trip, combineGroups vk lcComms (adjustEvals lcs evals) (groupQueries qs) ξs = .ok (trip, rest) ∧
+        πs.length = trip.length ∧
+        ∀ d ∈ KZG.defects vk.vk (trip.map (·.1)) (trip.map (·.2.1)) (trip.map (·.2.2)) πs, d = 0 := by
   have hzip : (l.map (·.1)).zip ((l.map (·.2.1)).zip (l.map (·.2.2))) = l := by
     clear hH hL hlab hev ho
     induction l with
@@ -361,11 +363,10 @@ theorem lc_complete {ck : CK F} {vk : VK F} {g γ β h : F} {D n m : Nat}
       cases hx : t.2.1.shifted with
       | none => rfl
       | some _ => rw [hx] at hbs; simp at hbs
-    unfold checkCombinations
-    rw [combineAllComm_eq l hlab3 lcs ts hts]
-    simp only
+    refine ⟨ts.map (·.2.2), combineAllComm_eq l hlab3 lcs ts hts, ?_⟩
     have hmem := combineAll_mem l lcs ts hts
-    refine batch_complete hwf ts ?_ ?_ ?_ qs (adjustEvals lcs evals) ?_ ξs πs rest ho ?_ rs
+    refine batchOpenGroups_accept hwf ts ?_ ?_ ?_ (adjustEvals lcs evals) (groupQueries qs) ?_ ξs πs rest
+      ho ?_
     · intro t ht
       obtain ⟨lc, _, hc⟩ := hmem t ht
       exact (combineLC_honest l hH lc t hc 0).1
@@ -416,6 +417,28 @@ theorem lc_complete {ck : CK F} {vk : VK F} {g γ β h : F} {D n m : Nat}
       have := combineLC_shifted_none l m hL hn lc t hc
       rw [hte] at this
       rw [this] at hrs; cases hrs
+
+/-- **`open_combinations` → `check_combinations` completeness** for MarlinKZG10 over unbounded
+polynomials (a degree-bounded polynomial may only appear alone with coefficient one, where the
+combination *is* the polynomial and `marlin_batch_complete` applies directly). -/
+theorem lc_complete {ck : CK F} {vk : VK F} {g γ β h : F} {D n m : Nat}
+    (hwf : WF ck vk g γ β h D n m) (l : List (Trip' F))
+    (hH : ∀ t ∈ l, Honest g γ β D t ∧ t.1.bound = none) (hL : ∀ t ∈ l, RandLen m t)
+    (hlab : ∀ t ∈ l, t.2.2.label = t.1.label)
+    (lcs : List (LC.LinComb F)) (hnodup : (lcs.map (·.label)).Nodup)
+    (qs : List (Query F)) (evals : List ((Label × F) × F))
+    (hev : ∀ gr ∈ groupQueries qs, ∀ lc ∈ lcs, lc.label ∈ gr.2.2 →
+      lookupEval evals lc.label gr.2.1
+        = some (lcPolyValue l gr.2.1 lc.terms + lcConstant lc))
+    (ξs : List F) (πs : List (KZG.Proof F)) (rest : List F)
+    (ho : openCombinations ck (l.map (·.1)) (l.map (·.2.1)) (l.map (·.2.2)) lcs qs ξs = .ok (πs, rest))
+    (rs : List F) :
+    checkCombinations vk (l.map (·.2.2)) lcs qs evals πs ξs rs = .ok true := by
+  obtain ⟨lcComms, hcc, trip, htrip, hlen, hdef⟩ :=
+    lc_accept hwf l hH hL hlab lcs hnodup qs evals hev ξs πs rest ho
+  unfold checkCombinations
+  rw [hcc]
+  exact batchCheck_all_true vk lcComms qs (adjustEvals lcs evals) πs ξs rs trip rest htrip hlen hdef
 
 end Marlin
 end PCV
